@@ -68,7 +68,7 @@ def gen_job_plan(rng, nmax=14, max_out=4, ncomp_max=4, gpu=True, p_empty=0.03):
             ext = rng.sample(allds, rng.randint(1, min(5, len(allds))))
     else:
         ext = []
-    return dict(tasks=tasks, ext=ext)
+    return dict(tasks=tasks, ext=ext, edge_seed=rng.randrange(1 << 30))
 
 
 def gen_cluster_plan(rng, job, hmax=4, wmax=3):
@@ -89,11 +89,11 @@ def gen_cluster_plan(rng, job, hmax=4, wmax=3):
     return dict(hosts=hosts, wph=wph, gpus=gpus)
 
 
-def _func_for(tag, nout, pad, nyield=None):
+def _func_for(tag, nout, pad, nyield=None, blob=False):
     from cascade.low.core import TaskDefinition
-    key = (tag, nout, pad, nyield)
+    key = (tag, nout, pad, nyield, blob)
     if key not in _FUNC_CACHE:
-        _FUNC_CACHE[key] = TaskDefinition.func_enc(simtasks.make(tag, nout, pad, nyield))
+        _FUNC_CACHE[key] = TaskDefinition.func_enc(simtasks.make(tag, nout, pad, nyield, blob))
     return _FUNC_CACHE[key]
 
 
@@ -103,7 +103,7 @@ def build_job(jp):
     for t in sorted(jp["tasks"], key=lambda t: t["name"]):
         outs = [str(o) for o in range(t["nout"])]
         tasks[t["name"]] = TaskInstance(
-            definition=TaskDefinition(func=_func_for(t["name"], t["nout"], t.get("pad", 0), t.get("nyield")), environment=[],
+            definition=TaskDefinition(func=_func_for(t["name"], t["nout"], t.get("pad", 0), t.get("nyield"), bool(t.get("blob"))), environment=[],
                                       input_schema={}, output_schema={o: "Any" for o in outs}, needs_gpu=bool(t.get("gpu"))),
             static_input_kw=dict(t["static_kw"]), static_input_ps=dict(t["static_ps"]))
         for (src, out, kind, where) in t["inputs"]:
@@ -111,7 +111,14 @@ def build_job(jp):
                                        sink_input_kw=where if kind == "kw" else None,
                                        sink_input_ps=where if kind == "ps" else None))
     edges.sort(key=lambda e: (e.sink_task, repr(e.source), str(e.sink_input_kw), str(e.sink_input_ps)))
+    if jp.get("edge_seed") is not None:
+        # the order of a job's edge list carries no meaning: any (seeded) order, not only one grouped by sink
+        import random
+        random.Random(jp["edge_seed"]).shuffle(edges)
     job = JobInstance(tasks=tasks, edges=edges)
+    if any(t.get("blob") for t in jp["tasks"]):
+        from cascade.low.core import type_enc
+        job.serdes = {type_enc(simtasks.Blob): ("sim.simtasks.blob_ser", "sim.simtasks.blob_des")}
     job.ext_outputs = [DatasetId(a, b) for a, b in jp["ext"]]
     return job
 
@@ -173,6 +180,8 @@ def refeval_plan(jp):
             k, pad = t["nout"], t.get("pad", 0)
             keys = sorted(str(o) for o in range(k))
             produced = [(f"{base}/{i}" if k > 1 else base) + "." * pad for i in range(k)]
+            if t.get("blob"):
+                produced = [simtasks.Blob(v.encode()) for v in produced]
             for key, v in zip(keys, produced):
                 vals[(name, key)] = v
             done.add(name)
